@@ -147,6 +147,8 @@ enum Rx {
 pub struct SimCard {
     pub cfg: CardCfg,
     pub mem: BTreeMap<u64, [u8; 512]>,
+    /// contents of blocks never written through the bus (full-stack sessions preload a formatted image here)
+    pub base: Option<crate::disk::Image>,
     rng: Rng,
     // protocol state
     spi_mode: bool,
@@ -202,6 +204,7 @@ impl SimCard {
         SimCard {
             cfg,
             mem: BTreeMap::new(),
+            base: None,
             rng,
             spi_mode: false,
             idle: true,
@@ -261,7 +264,13 @@ impl SimCard {
     }
 
     pub fn block(&self, n: u64) -> [u8; 512] {
-        self.mem.get(&n).copied().unwrap_or_else(|| default_fill(n))
+        match self.mem.get(&n) {
+            Some(b) => *b,
+            None => match &self.base {
+                Some(img) if n < img.num_blocks as u64 => img.get(n as u32),
+                _ => default_fill(n),
+            },
+        }
     }
 
     fn err(&mut self, s: String) {
